@@ -1,0 +1,35 @@
+//go:build verif
+
+package lastgersync
+
+import (
+	"context"
+
+	"github.com/agglayer/aggkit/sync"
+)
+
+// This file only exists under the `verif` build tag. It exposes the real injected-GER processor
+// behind the real LastGERSync facade, without a downloader/driver, for the external
+// verification harness.
+
+// NewVerif builds a LastGERSync around the real processor (newProcessor) on dbPath.
+func NewVerif(dbPath string) (*LastGERSync, error) {
+	p, err := newProcessor(dbPath)
+	if err != nil {
+		return nil, err
+	}
+	return &LastGERSync{processor: p}, nil
+}
+
+// VerifProcessBlock calls the real processor.ProcessBlock.
+func (s *LastGERSync) VerifProcessBlock(ctx context.Context, b sync.Block) error {
+	return s.processor.ProcessBlock(ctx, b)
+}
+
+// VerifReorg calls the real processor.Reorg.
+func (s *LastGERSync) VerifReorg(ctx context.Context, firstReorgedBlock uint64) error {
+	return s.processor.Reorg(ctx, firstReorgedBlock)
+}
+
+// VerifClose closes the processor's database handle.
+func (s *LastGERSync) VerifClose() error { return s.processor.database.Close() }
